@@ -247,7 +247,7 @@ pub fn measured_full<T>(forbid: bool, statics: bool, record: bool, f: impl FnOnc
     let r = catch_unwind(AssertUnwindSafe(f));
     let blocks = if record { harness(alloc::record_take) } else { None };
     let ambient = if statics && r.is_ok() { harness(|| crate::seam::delta(&seam0)) } else { None };
-    let static_write = if statics && r.is_ok() { crate::statics::changed().or_else(|| crate::statics::tls_changed().map(|(o, a, b)| (usize::MAX - o, a, b))) } else { None };
+    let static_write = if statics && r.is_ok() { harness(|| crate::statics::changed().or_else(|| crate::statics::tls_changed().map(|(o, a, b)| (usize::MAX - o, a, b)))) } else { None };
     alloc::set_forbid(false);
     let peak = alloc::peak();
     let m = Meas { static_write, ambient, blocks, before, peak, allocs: alloc::count() - c0, forbid_hits: alloc::forbid_hits() - f0, max_req: alloc::max_request() };
@@ -1079,7 +1079,7 @@ pub fn run_op<'c>(ctx: &'c Ctx<'c>, me: usize, st: &mut ActorState<'c>, opi: usi
                         harness(|| push_violation(armed, "C15.ambient_read", "clock-read-by-an-operation-that-is-given-its-instant", "decoding read the (simulated) system clock".into()));
                     }
                     if let Some((off, old, new)) = m.static_write {
-                        push_violation(armed, "C15.static_write", "static-data-written", format!("decoding changed process-global state ({}: {old:#04x} -> {new:#04x})", crate::statics::describe(off)));
+                        harness(|| push_violation(armed, "C15.static_write", "static-data-written", format!("decoding changed process-global state ({}: {old:#04x} -> {new:#04x})", crate::statics::describe(off))));
                     }
                     let res = harness(|| match &r {
                         Ok(rr) => {
